@@ -37,6 +37,7 @@ func init() {
 			{ID: "C12.16", Desc: "the directive collector visits every pair of the field", Run: func(c *Ctx) { ruleCollectorVisitsEveryPair(c, "C12.16") }, MinSites: 1},
 			{ID: "C12.17", Desc: "fields nominated by a qualified no-cache are removed by their canonical names on every path (set-cookie, SET-COOKIE)", Run: func(c *Ctx) { ruleC02_4(c); renameRule(c, "C02.4", "C12.17") }, MinSites: 1},
 			{ID: "C12.18", Desc: "a signed number is not delta-seconds", Run: func(c *Ctx) { ruleDeltaSecondsUnsigned(c, "C12.18") }, MinSites: 1},
+			{ID: "C12.19", Desc: "HTAB is optional whitespace like SP", Run: func(c *Ctx) { ruleListTrimOWS(c, "C12.19") }, MinSites: 1},
 		},
 	})
 }
